@@ -10,7 +10,7 @@ HANG = ("unanswered_at_quiescence", "unknown_answer", "duplicate_answer")
 VALUE = ("stale_after_ack", "wrong_physical_page")
 
 
-def run_cases(ck, payload, label, chunks=8, timeout=1500):
+def run_cases(ck, payload, label, chunks=8, timeout=3600):
     """payload: input of driver vmstack_trace (without `out`). Returns (reports, records, infos):
     reports = per-case driver reports; records[i] = CASE records of case i (with global line numbers);
     infos[i] = counters of case i."""
@@ -138,10 +138,10 @@ def attribute(rep, recs):
             continue
         key = {"class": cls.replace("_at_quiescence", ""), "kind": me["kind"], "cause": "none", "quiesce": "n/a", "page": "n/a"}
         if cls == "unanswered_at_quiescence":
-            if me["kind"] == "tlb" and me["latency"] == 1:
-                key["cause"] = "tlb_latency_1"
-            elif me["kind"] == "tlb" and d.get("unaligned", 0) > 0:
+            if me["kind"] == "tlb" and d.get("unaligned", 0) > 0:
                 key["cause"] = "unaligned_vaddr"
+            elif me["kind"] == "tlb" and me["latency"] == 1:
+                key["cause"] = "tlb_latency_1"
             f = d.get("first") or {}
             if me["kind"] == "gmmu":
                 key["page"] = "remote" if (f.get("pid"), f.get("vpn")) in remote else "local"
